@@ -105,7 +105,36 @@ func genCLI(out *bufio.Writer, rng *rand.Rand, count int) int {
 			nfiles = 1
 		}
 		var files [][]byte
-		for i := 0; i < nfiles; i++ {
+		census := preset == "" && !legacy && rng.Intn(8) == 0
+		if census {
+			// a warrior that counts its own tasks: 2^k tasks each add 1 to a counter, the one that
+			// sees the expected total survives — the outcome depends on every queued task
+			k := 5 + rng.Intn(6)
+			var sb strings.Builder
+			nopAt := rng.Intn(k + 1)
+			for i := 0; i < k; i++ {
+				if i == nopAt {
+					sb.WriteString("nop 0\n")
+				}
+				sb.WriteString("spl 1\n")
+			}
+			total := 1 << uint(k)
+			if rng.Intn(4) == 0 {
+				total++ // never reached: the census warrior must die
+			}
+			fmt.Fprintf(&sb, "add.ab #1, cnt\nsne.ab #%d, cnt\njmp 0\ncnt dat 0, 0\n", total)
+			ln, nfiles = 20, 2
+			size = []int{800, 2000, 8000}[rng.Intn(3)]
+			procs = []int{8000, 1 << uint(k), 1<<uint(k) - 1, 300, 600, 257}[rng.Intn(6)]
+			cycles = 40000
+			rounds = 1
+			fixed = size / 2
+			debug = false
+			files = append(files, []byte(sb.String()), []byte("jmp 0\n"))
+			args := 0
+			_ = args
+		}
+		for i := 0; i < nfiles && !census; i++ {
 			var src []byte
 			if rng.Intn(3) == 0 && !legacy {
 				src = []byte(knownWarriors[rng.Intn(len(knownWarriors))])
